@@ -9,6 +9,31 @@ KNOWN = os.path.join(VERIF, "known_findings.json")
 EVID = os.path.join(VERIF, "evidence")
 
 
+def strip_targs(s):
+    """remove balanced template argument lists: 'List<int>::Iterator' -> 'List::Iterator'"""
+    out = []
+    depth = 0
+    i = 0
+    while i < len(s):
+        c = s[i]
+        if s.startswith("operator", i):
+            j = i + 8
+            while j < len(s) and s[j] in "<>=-!+*/%&|^~[]()":
+                j += 1
+            if depth == 0:
+                out.append(s[i:j])
+            i = j
+            continue
+        if c == "<":
+            depth += 1
+        elif c == ">" and depth > 0:
+            depth -= 1
+        elif depth == 0:
+            out.append(c)
+        i += 1
+    return "".join(out)
+
+
 def generic_fkey(fn):
     """instantiation-independent identity of a function: qualified name + parameter type shape
     with the class' template arguments replaced by T0, T1, ..."""
@@ -25,10 +50,8 @@ def generic_fkey(fn):
         # longest template args first so that e.g. "unsigned int" is replaced before "int"
         for i, a in sorted(enumerate(targs), key=lambda x: -len(x[1])):
             t = re.sub(r"(?<![\w:])" + re.escape(a) + r"(?![\w:])", "T%d" % i, t)
-        t = re.sub(r"<[^<>]*>", "", t)
-        t = re.sub(r"<[^<>]*>", "", t)
-        ps.append(t)
-    k = "%s(%s)" % (fn.name, ", ".join(ps))
+        ps.append(strip_targs(t))
+    k = "%s(%s)" % (strip_targs(fn.name), ", ".join(ps))
     if fn.d.get("const"):
         k += " const"
     return k
